@@ -545,6 +545,7 @@ impl World {
     pub fn step(&mut self, rng: &mut Rng, cx: &mut Cx) {
         self.step += 1;
         self.last_dec = None;
+        self.last_report = None;
         let w_probe: u32 = match cx.prop {
             Prop::C09 => 8,
             Prop::C10 => 14,
